@@ -241,7 +241,7 @@ def regression_witnesses(c):
     if not os.path.exists(path):
         return
     cases = json.load(open(path)).get('cases', [])
-    outs = c.impl('units', [sx([Sym('eval'), CTX_DEFAULT, k['input']]) for k in cases])
+    outs = c.impl('units', [sx([Sym('eval'), k.get('ctx', CTX_DEFAULT), k['input']]) for k in cases])
     for k, o in zip(cases, outs):
         c.note_case('witness:' + k['input'], True, 'regression-witness')
         p = try_parse(o)
@@ -313,3 +313,47 @@ def history_check(c, histories, label):
             nbad += 1
             c.violation(label + '-depends-on-history', {'kind': 'impl-vs-spec', 'history': [list(s) for s in histories[hi]], 'step': k, 'input': text,
                                                           'customs_defined_so_far': customs, 'on_used_context': a, 'on_fresh_context': b})
+
+
+# ---------------------------------------------------------------------------
+# the configuration dimension of a Context: decimal separator style x C/F mode.
+# A statement must mean the same in every configuration: only the separators of the
+# printed numbers change (and, in coulomb/farad mode, what a bare C or F denotes).
+
+CTX_COMMA = [0, 1, [], 1]
+CONFIGS = [('comma', [0, 1, [], 1], True, False), ('coulomb-farad', [1, 1, []], False, True), ('comma+coulomb-farad', [1, 1, [], 1], True, True)]
+_SWAP = {44: 46, 46: 44}
+
+def swap_sep(text):
+    return text.replace('approx.', 'approx\x00').translate(_SWAP).replace('approx\x00', 'approx.')
+
+def to_comma(text):
+    """decimal literals of an input written in the dot style -> comma style"""
+    return re.sub(r'(?<=[0-9])\.(?=[0-9])', ',', text)
+
+def config_sweep(c, texts, label, configs=CONFIGS):
+    """texts are inputs in the dot style (decimal literals allowed, no thousands separators).
+    Each is evaluated on a fresh context in the default configuration and in every other one
+    (with its literals re-written in the style under test); the answers must agree up to the
+    separators."""
+    texts = list(dict.fromkeys(texts))
+    def run(ctx, ins):
+        outs = impl_patient(c, [sx([Sym('eval'), ctx, t]) for t in ins])
+        res = []
+        for o in outs:
+            p = try_parse(o)
+            res.append((p[0][0].decode(), p[0][1].decode('utf-8', 'replace')) if isinstance(p, list) and p and isinstance(p[0], list) and len(p[0]) == 2 else ('crash', o[:200]))
+        return res
+    base = dict(zip(texts, run(CTX_DEFAULT, texts)))
+    nbad = 0
+    for name, ctx, comma, coulomb in configs:
+        sel = [t for t in texts if not (coulomb and re.search(r'(?<![A-Za-z0-9_])[CF](?![A-Za-z0-9_])', t))]
+        outs = run(ctx, [to_comma(t) if comma else t for t in sel])
+        for t, o in zip(sel, outs):
+            c.note_case('%s:%s:%s' % (label, name, t), True, 'config-' + name)
+            got = (o[0], swap_sep(o[1])) if comma else o
+            if got != base[t] and nbad < 15:
+                nbad += 1
+                c.violation(label + '-depends-on-configuration', {'kind': 'impl-vs-spec', 'configuration': name, 'input': to_comma(t) if comma else t,
+                                                                   'impl': o, 'default_configuration_input': t, 'default_configuration_result': base[t],
+                                                                   'ctx': ctx})
